@@ -121,21 +121,27 @@ def _bool_eval(e, val, idx_txt):
     return val(txt(e))
 
 
-def _atoms(e, idx_txt, out):
+def _atoms(e, idx_txt, out, res=None):
     if isinstance(e, ast.BoolOp):
         for v in e.values:
-            _atoms(v, idx_txt, out)
+            _atoms(v, idx_txt, out, res)
     elif isinstance(e, ast.UnaryOp) and isinstance(e.op, ast.Not):
-        _atoms(e.operand, idx_txt, out)
+        _atoms(e.operand, idx_txt, out, res)
     else:
-        out[txt(e)] = _atom_kind(e, idx_txt)
+        k = _atom_kind(e, idx_txt)
+        if k is None and res is not None and isinstance(e, ast.Name):
+            # a local that stands for the flag (`enabled = cfg[...]`)
+            v = res(e.id)
+            if v is not None:
+                k = _atom_kind(v, idx_txt)
+        out[txt(e)] = k
 
 
-def edge_implies_unfiltered_ok(test, label, idx_txt=None):
+def edge_implies_unfiltered_ok(test, label, idx_txt=None, res=None):
     """taking the `label` branch of `test` guarantees: filtering is not
     wanted, or (with idx_txt) the event idx_txt is selected"""
     atoms = {}
-    _atoms(test, idx_txt, atoms)
+    _atoms(test, idx_txt, atoms, res)
     if not any(k for k in atoms.values()):
         return False
     keys = sorted(atoms)
@@ -175,6 +181,19 @@ class FuncTaint:
         self.sources = [n for n in walk(func) if self.is_source(n)]
         self.state_in = {}
         self._solve()
+
+    def single_def(self, name):
+        """value of a local that is assigned exactly once"""
+        if not hasattr(self, "_single"):
+            cnt, val = {}, {}
+            for n in walk(self.func):
+                if isinstance(n, ast.Name) and isinstance(n.ctx, ast.Store):
+                    cnt[n.id] = cnt.get(n.id, 0) + 1
+                if isinstance(n, ast.Assign) and len(n.targets) == 1 \
+                        and isinstance(n.targets[0], ast.Name):
+                    val[n.targets[0].id] = n.value
+            self._single = {k: v for k, v in val.items() if cnt.get(k) == 1}
+        return self._single.get(name)
 
     # -- recognisers
     def _dataset_names(self):
@@ -243,7 +262,7 @@ class FuncTaint:
         def establishes(src, lab, dst):
             if src.kind == "test" and lab in ("T", "F"):
                 return edge_implies_unfiltered_ok(
-                    src.ast.test, lab == "T", idx_txt)
+                    src.ast.test, lab == "T", idx_txt, self.single_def)
             return False
         kills = [self.cfg.entry]
         for node in self.cfg.nodes:
@@ -409,8 +428,8 @@ class FuncTaint:
                 o = o_plain
                 nd = cfg.nodes[i]
                 if nd.kind == "test" and lab in ("T", "F") \
-                        and edge_implies_unfiltered_ok(nd.ast.test,
-                                                       lab == "T"):
+                        and edge_implies_unfiltered_ok(
+                            nd.ast.test, lab == "T", None, self.single_def):
                     # on this path filtering is not wanted: raw data are
                     # what the caller asked for
                     o = {k: (v - {RAW_BAD}) | {RAW_OK} if RAW_BAD in v else v
@@ -617,6 +636,44 @@ def r121(ctx, repo):
                 key = id(node)
                 cur = per_site.setdefault(key, [node, kind, frozenset()])
                 cur[2] = cur[2] | tags
+            # no feature data is remembered beyond the call (attribute of
+            # the instance / a class / a module global)
+            glob = {nm for n in walk(ft.func) if isinstance(n, ast.Global)
+                    for nm in n.names}
+            kept = []
+            for node in ft.cfg.nodes:
+                if node.kind != "stmt" or node.id not in ft.state_in \
+                        or not isinstance(node.ast, (ast.Assign,
+                                                     ast.AugAssign)):
+                    continue
+                tgs = node.ast.targets if isinstance(
+                    node.ast, ast.Assign) else [node.ast.target]
+                for tg in tgs:
+                    base = tg
+                    via_attr = False
+                    while isinstance(base, (ast.Subscript, ast.Attribute)):
+                        via_attr = via_attr or isinstance(
+                            base, ast.Attribute)
+                        base = base.value
+                    if not isinstance(base, ast.Name):
+                        continue
+                    outer = (via_attr and (
+                        base.id in ("self", "cls") or base.id[:1].isupper())
+                    ) or base.id in glob
+                    if outer and SRC in ft.tv(node.ast.value,
+                                              ft.state_in[node.id]):
+                        kept.append(node.ast)
+            if kept or (rel == STAT and ft.sources):
+                ctx.ob("R12.1", not kept,
+                       "no feature data are remembered beyond the call "
+                       "(the dataset and filter.all are read on every call)"
+                       if not kept else
+                       f"`{short(kept[0], 60)}` keeps feature data beyond "
+                       f"the call: a later call can hand out the data of an "
+                       f"earlier filter state instead of reading the "
+                       f"dataset and filter.all again", node=kept[0]
+                       if kept else func,
+                       label="no feature data remembered across calls")
             if per_site:
                 entry_points.append(f"{rel}::{qualname(func)}")
             count = {}
@@ -1211,31 +1268,55 @@ def r123(ctx, repo):
     bad = None
     bad_call = None
     tags = [None, "nan", None, "inf", None, None]
+
+
+    class Steady:
+        """every attribute the model does not define keeps one constant
+        value: between two calls nothing but `filter.all` changes, so the
+        statistics have to follow `filter.all`"""
+
+        def __getattr__(self, item):
+            if item.startswith("__"):
+                raise AttributeError(item)
+            return f"<{item}>"
     for enabled in (True, False):
+        # one interpreter and one dataset for the whole series of calls:
+        # the filter is changed between the calls (anything remembered
+        # from an earlier call shows)
+        mini2 = Mini({"np": np_values(),
+                      "tb": NS("tb", format_exc=lambda: "exc"),
+                      "traceback": NS("tb", format_exc=lambda: "exc"),
+                      "warnings": NS("warnings",
+                                     warn=lambda *a, **k: None),
+                      "BadMethodWarning": UserWarning})
+        mini2.bind_module(repo.tree(STAT))
+        mini2.g["Statistics"] = ClassModel(mini2,
+                                           repo.cls(STAT, "Statistics"))
+        vals = val_arr(tags, "deform")
+
+        class Filt(Steady):
+            all = None
+
+        class D(Steady):
+            config = {"filtering": {"enable filters": enabled}}
+            filter = Filt()
+            title = "t"
+
+            def __getitem__(self, k):
+                if k != "deform":
+                    raise KeyError(k)
+                return vals.copy()
+
+            def __contains__(self, k):
+                return k == "deform"
+        dsm0 = D()
         for mask in ([True, True, False, True, True, False], [True] * 6,
-                     [False] * 6):
-            feat = Feat("deform", 6)
-            vals = val_arr(tags, "deform")
-
-            class D:
-                config = {"filtering": {"enable filters": enabled}}
-                filter = NS("filter", all=Arr(mask, "bool"))
-
-                def __getitem__(self, k):
-                    if k != "deform":
-                        raise KeyError(k)
-                    return vals.copy()
-            mini2 = Mini({"np": np_values(),
-                          "tb": NS("tb", format_exc=lambda: "exc"),
-                          "traceback": NS("tb", format_exc=lambda: "exc"),
-                          "warnings": NS("warnings",
-                                         warn=lambda *a, **k: None),
-                          "BadMethodWarning": UserWarning})
-            mini2.bind_module(repo.tree(STAT))
+                     [False] * 6, [False, False, True, True, True, True]):
+            D.filter.all = Arr(mask, "bool")
             me = SelfModel(mini2, repo.cls(STAT, "Statistics"),
                            name="Mean", req_feature=True)
             try:
-                out = mini2.call(gf, (me, D(), "deform"))
+                out = mini2.call(gf, (me, dsm0, "deform"))
             except ModelFault as e:
                 bad = bad or str(e)
                 continue
@@ -1253,17 +1334,18 @@ def r123(ctx, repo):
                               f"values {tags}: returned values {got}, "
                               f"expected the finite values of events {want} "
                               f"(invalid values have to be removed, a "
-                              f"statistic must not see them or count them)")
+                              f"statistic must not see them or count them; "
+                              f"the dataset and filter.all have to be read "
+                              f"on every call, not remembered from an "
+                              f"earlier one)")
             # end to end: what a registered feature statistic is applied to
             seen = []
             me2 = SelfModel(mini2, repo.cls(STAT, "Statistics"),
                             name="Stat", req_feature=True,
                             method=lambda data: (seen.append(data), 1.0)[1])
-            dsm = D()
-            dsm.title = "t"
             try:
                 mini2.call(repo.func(STAT, "Statistics.__call__"), (me2,),
-                           dict(ds=dsm, feature="deform"))
+                           dict(ds=dsm0, feature="deform"))
             except ModelFault as e:
                 bad_call = bad_call or str(e)
                 continue
@@ -2555,5 +2637,40 @@ MUTANTS = list(MUTANTS) + [
       (_SPACING_X, _PARTIAL
        + "        xacc_sc, xs = get_spacing(a=self[xax], feat=xax, "
          "scale=xscale)\n")], "R12.1"),
+]
+
+
+_GF_BRANCH = ('        if ds.config["filtering"]["enable filters"]:\n'
+              "            x = ds[feat][ds.filter.all]\n")
+
+MUTANTS = list(MUTANTS) + [
+    ("statistics: purged data of the last feature memoised (seeded part)",
+     STAT,
+     [(_GF_BRANCH,
+       '        enabled = ds.config["filtering"]["enable filters"]\n'
+       "        key = (ds.identifier, feat, enabled, ds.filter.revision)\n"
+       "        if Statistics._last_feature[0] == key:\n"
+       "            return Statistics._last_feature[1]\n"
+       "        if enabled:\n"
+       "            x = ds[feat][ds.filter.all]\n"),
+      ("        xout = x[~bad]\n        return xout\n",
+       "        xout = x[~bad]\n"
+       "        Statistics._last_feature = (key, xout)\n"
+       "        return xout\n"),
+      ("    available_methods = {}\n",
+       "    available_methods = {}\n    _last_feature = (None, None)\n")],
+     "R12."),
+    ("statistics: purged data kept on the instance", STAT,
+     ("        xout = x[~bad]\n        return xout\n",
+      "        xout = x[~bad]\n        self._last = xout\n"
+      "        return xout\n"), "R12.1"),
+]
+
+TWINS = list(TWINS) + [
+    ("statistics: enable flag in a local", STAT,
+     (_GF_BRANCH,
+      '        enabled = ds.config["filtering"]["enable filters"]\n'
+      "        if enabled:\n"
+      "            x = ds[feat][ds.filter.all]\n")),
 ]
 
